@@ -77,6 +77,7 @@ type fakeStream struct {
 	mu      sync.Mutex
 	sent    []sentPkt
 	closed  bool
+	cfgSets int // ConfigSet pushes received so far (never reset)
 	onWrite func(p *packet.TransferPacket)
 }
 
@@ -91,6 +92,9 @@ func (f *fakeStream) WritePacket(p *packet.TransferPacket, _ bool, _ int64) (int
 	if p.CommandPacket != nil {
 		sp.ctype = p.CommandPacket.CommandType
 		sp.body = p.CommandPacket.CommandBody
+		if sp.ctype == packet.ConfigSet && !p.PacketType.IsCommandResp() {
+			f.cfgSets++
+		}
 	}
 	f.sent = append(f.sent, sp)
 	cb := f.onWrite
@@ -120,6 +124,9 @@ type connSpec struct {
 	kind byte // N U A
 	cid  int64
 	node int // server node the connection is attached to
+	// the connection's history: handshake steps in order (the fields above are the resulting state: last successful
+	// authentication, else registered-unauthenticated if any handshake was attempted, else accepted only)
+	steps []connSpec
 }
 type mapSpec struct {
 	listen, target int64
@@ -207,10 +214,26 @@ func parseCase(s string) (*kase, error) {
 		return nil, err
 	}
 	for j := 0; j < n; j++ {
-		idAndNode := strings.SplitN(t[i][1:], "@", 2)
-		cs := connSpec{kind: t[i][0], cid: atoi64(idAndNode[0])}
-		if len(idAndNode) == 2 {
-			cs.node = atoi(idAndNode[1])
+		histAndNode := strings.SplitN(t[i], "@", 2)
+		cs := connSpec{kind: 'N'}
+		for _, st := range strings.Split(histAndNode[0], ">") {
+			if len(st) < 2 {
+				return nil, fmt.Errorf("bad connection step")
+			}
+			step := connSpec{kind: st[0], cid: atoi64(st[1:])}
+			cs.steps = append(cs.steps, step)
+			switch {
+			case step.kind == 'A' && step.cid > 0:
+				cs.kind, cs.cid = 'A', step.cid
+			case step.kind != 'N' && cs.kind == 'N':
+				cs.kind = 'U'
+			}
+		}
+		if len(cs.steps) == 1 && cs.kind != 'A' {
+			cs.kind, cs.cid = cs.steps[0].kind, cs.steps[0].cid // single step: keep the token's own letter (N/U/P/F)
+		}
+		if len(histAndNode) == 2 {
+			cs.node = atoi(histAndNode[1])
 			if cs.node < 0 || cs.node > 3 {
 				return nil, fmt.Errorf("bad node")
 			}
@@ -291,30 +314,31 @@ func (f *flakyStorage) arm(key string, plan uint64) {
 // ---------------------------------------------------------------- world
 
 type world struct {
-	cancel  context.CancelFunc
-	sms     []*session.SessionManager // one per node
-	hub     *hub
-	stor    *flakyStorage
-	skm     *security.SecretKeyManager
-	cfgRepo *repos.ClientConfigRepository
-	pushMu  sync.Mutex
-	pushes  []pushRec // every config the session asked for in order to push it after a successful handshake
-	logins  int       // successful handshakes
-	clients map[int64]bool
-	gone0   map[int]bool
-	cloud   *managers.BuiltinCloudControl
-	kase    *kase
-	pmRepo  *repos.PortMappingRepo
-	ccRepo  *repos.ConnectionCodeRepository
-	domRepo *repos.HTTPDomainMappingRepository
-	streams []*fakeStream
-	mapIDs  []string
-	mapKeys []string
-	codes   []string
-	codeIDs []string
-	domIDs  []string
-	domSubs []string
-	done    chan struct{} // signalled by the executor middleware when a handler returns
+	cancel   context.CancelFunc
+	sms      []*session.SessionManager // one per node
+	hub      *hub
+	stor     *flakyStorage
+	skm      *security.SecretKeyManager
+	cfgRepo  *repos.ClientConfigRepository
+	pushMu   sync.Mutex
+	pushes   []pushRec // every config the session asked for in order to push it after a successful handshake
+	logins   int       // successful handshakes
+	clients  map[int64]bool
+	loginsOf map[int]int
+	gone0    map[int]bool
+	cloud    *managers.BuiltinCloudControl
+	kase     *kase
+	pmRepo   *repos.PortMappingRepo
+	ccRepo   *repos.ConnectionCodeRepository
+	domRepo  *repos.HTTPDomainMappingRepository
+	streams  []*fakeStream
+	mapIDs   []string
+	mapKeys  []string
+	codes    []string
+	codeIDs  []string
+	domIDs   []string
+	domSubs  []string
+	done     chan struct{} // signalled by the executor middleware when a handler returns
 }
 
 type doneMW struct{ ch chan struct{} }
@@ -387,8 +411,14 @@ func (w *world) ensureClient(id int64) error {
 func (w *world) handshake(i int, req *packet.HandshakeRequest) *packet.HandshakeResponse {
 	payload, _ := json.Marshal(req)
 	w.streams[i].reset()
-	_ = w.smOf(i).HandlePacket(&types.StreamPacket{ConnectionID: connID(i), Timestamp: time.Now(),
+	err := w.smOf(i).HandlePacket(&types.StreamPacket{ConnectionID: connID(i), Timestamp: time.Now(),
 		Packet: &packet.TransferPacket{PacketType: packet.Handshake, Payload: payload}})
+	// the session pushes the client's configuration (from a goroutine) after every handshake packet it handled without
+	// error on a connection that is authenticated at that point — also after phase 1 of a re-handshake
+	if ctl := w.smOf(i).GetControlConnection(connID(i)); err == nil && ctl != nil && ctl.IsAuthenticated() && ctl.GetClientID() > 0 {
+		w.logins++
+		w.loginsOf[i]++
+	}
 	for _, p := range w.streams[i].snapshot() {
 		if p.ptype&0x3F == packet.HandshakeResp {
 			var r packet.HandshakeResponse
@@ -407,6 +437,27 @@ func (w *world) handshake(i int, req *packet.HandshakeRequest) *packet.Handshake
 //	P<c> phase 1 for client c done, challenge pending     F<c> phase 2 for c answered with a wrong HMAC (refused)
 //	A<c> phase 1 and phase 2 with the right HMAC: authenticated as c
 func (w *world) establish(i int, c connSpec) error {
+	for _, st := range c.steps {
+		if err := w.establishStep(i, st); err != nil {
+			return err
+		}
+		if len(c.steps) > 1 {
+			w.warmUp(i) // commands between the steps, so that anything remembered per connection is warm
+		}
+	}
+	return nil
+}
+
+// warmUp sends read-only registry commands from the connection (whatever it is allowed to see).
+func (w *world) warmUp(i int) {
+	for _, ct := range []packet.CommandType{packet.HTTPDomainList, packet.HTTPDomainGetBaseDomains, packet.MappingList, packet.ConfigGet} {
+		_ = w.smOf(i).HandlePacket(&types.StreamPacket{ConnectionID: connID(i), Timestamp: time.Now(),
+			Packet: &packet.TransferPacket{PacketType: packet.JsonCommand, CommandPacket: &packet.CommandPacket{CommandType: ct,
+				CommandId: fmt.Sprintf("cmd-warm-%d", atomic.AddInt64(&cmdSeq, 1)), CommandBody: `{}`}}})
+	}
+}
+
+func (w *world) establishStep(i int, c connSpec) error {
 	hs := func(id int64, resp string) *packet.HandshakeResponse {
 		return w.handshake(i, &packet.HandshakeRequest{ClientID: id, Version: "3", Protocol: "tcp", ConnectionType: "control", ChallengeResponse: resp})
 	}
@@ -444,7 +495,6 @@ func (w *world) establish(i int, c connSpec) error {
 	if r2 := hs(c.cid, hex.EncodeToString(mac.Sum(nil))); r2 == nil || !r2.Success {
 		return fmt.Errorf("client %d could not authenticate", c.cid)
 	}
-	w.logins++
 	return nil
 }
 
@@ -457,23 +507,22 @@ func (w *world) settleLogins() error {
 		n := len(w.pushes)
 		recs := append([]pushRec(nil), w.pushes...)
 		w.pushMu.Unlock()
+		// every successful login of connection i is followed by exactly one push attempt for connection i
 		done := n >= w.logins
-		if done {
-			for _, pr := range recs {
-				if pr.body == "" || pr.body == `{"mappings":[]}` || pr.body == `{"mappings":null}` {
-					continue
-				}
-				got := false
-				for i := range w.streams {
-					if connID(i) == pr.connID {
-						for _, p := range w.streams[i].snapshot() {
-							if p.ctype == packet.ConfigSet {
-								got = true
-							}
-						}
-					}
-				}
-				done = done && got
+		perConn := map[string]int{}
+		want := map[string]int{}
+		for _, pr := range recs {
+			perConn[pr.connID]++
+			if !(pr.body == "" || pr.body == `{"mappings":[]}` || pr.body == `{"mappings":null}`) {
+				want[pr.connID]++
+			}
+		}
+		for i, fs := range w.streams {
+			fs.mu.Lock()
+			got := fs.cfgSets
+			fs.mu.Unlock()
+			if perConn[connID(i)] < w.loginsOf[i] || got < want[connID(i)] {
+				done = false
 			}
 		}
 		if done {
@@ -636,6 +685,7 @@ func buildWorld(k *kase) (*world, error) {
 	}
 	w.skm = theSKM
 	w.clients = map[int64]bool{}
+	w.loginsOf = map[int]int{}
 	w.cfgRepo = repos.NewClientConfigRepository(repo)
 	idm := idgen.NewIDManager(stor, ctx)
 	w.pmRepo = repos.NewPortMappingRepo(repo)
@@ -1639,6 +1689,35 @@ func gen(out *vc.Out, r *vc.Rand, thorough bool) {
 			}
 		}
 	}
+	// 1f. connection histories: the identity of ONE connection changes between commands (re-handshake as another client,
+	//     attempts that do not succeed after a login, login after attempts), read-only commands in between (warm caches),
+	//     alone and next to an earlier / later login of the same client elsewhere (kick)
+	hists := []string{"A1001>A1002", "A1001>P1002", "A1001>F1002", "A1001>U0", "P1001>A1002", "N0>A1001", "A1001>A1002>A1001", "U0>A1001", "A1001>A1001", "A1002>A1001"}
+	for _, h := range hists {
+		for layout := 0; layout < 3; layout++ {
+			cs := []string{"A1003", h, "A1004", "U0"}
+			hi, other := 1, 0
+			switch layout {
+			case 1:
+				cs = []string{"A1001", h, "A1003", "U0"} // 1001 logged in elsewhere first
+			case 2:
+				cs = []string{h, "A1001", "A1003", "U0"} // 1001 logs in elsewhere afterwards
+				hi, other = 0, 1
+			}
+			w := worldStr(cs, []string{"1001:1002:s:a", "1003:1001:t:a"}, []string{"1001:0", "1002:0"}, []string{"1001", "1002", "1003"})
+			for _, ct := range []int{87, 86, 85, 102, 101, 50, 74, 75, 76, 70, 71, 72, 110, 90, 120, 11} {
+				for _, from := range []int{hi, other} {
+					for _, o := range []int{0, 1} {
+						execCase(out, caseStr(ct, false, from, 0, 0, "-", false, o, 1003, o, o, w))
+						if thorough {
+							execCase(out, withExtras(reClaim(caseStr(ct, false, from, 0, 0, "-", false, o, 1002, o, o, w), "@c0", "@c1", "@c1"), A))
+						}
+						out.Count("history:identity-changes-on-one-connection")
+					}
+				}
+			}
+		}
+	}
 	// 1e. configuration without a command executor (handleDefaultCommand / handleConfigGetCommand), and the second entry
 	//     point ProcessCommand (executor without the special cases; predicate only)
 	noEx := strings.Replace(std, "W ", "W ne 1 ", 1)
@@ -1732,6 +1811,8 @@ func gen(out *vc.Out, r *vc.Rand, thorough bool) {
 				cs = append(cs, "U0")
 			case 1:
 				cs = append(cs, vc.Pick(r, []string{"N0", "N0", fmt.Sprintf("P%d", vc.Pick(r, ids)), fmt.Sprintf("F%d", vc.Pick(r, ids))}))
+			case 2:
+				cs = append(cs, fmt.Sprintf("%s%d>%s%d", vc.Pick(r, []string{"A", "A", "P", "N"}), vc.Pick(r, ids), vc.Pick(r, []string{"A", "A", "P", "F"}), vc.Pick(r, ids)))
 			default:
 				cs = append(cs, fmt.Sprintf("A%d", vc.Pick(r, ids)))
 			}
